@@ -7,9 +7,13 @@ import LunaVerif.Model.Usb2.StreamOutEndpoint
   of the shape `USBDataPacketReceiver` produces (`valid` high, bytes on `next`, exactly one of
   `rx_complete` / `rx_invalid` in the cycle `valid` falls), then — for a CRC-valid packet — one
   `rx_ready_for_response` cycle at least one cycle later (any delay), while the token fields and the
-  data PID stay stable.  Everything else is free in every cycle: the consumer's `ready`, the
+  data PID stay stable.  A data packet is bounded by `max_packet_size` only in a transaction addressed to
+  the endpoint (`lenOk`); a packet that follows any other token (another endpoint, SETUP, IN, PING) may
+  have any length.  Everything else is free in every cycle: the consumer's `ready`, the
   tokenizer's `ready_for_response` (PING), traffic addressed to other endpoints, corrupted packets,
   repeated toggles, DATA2/MDATA PIDs, ClearFeature(HALT) outside the endpoint's own transactions.
+  (`Phase.stepStrict` / `LegalHostStrict` in Props/C13Foreign.lean: the former acceptor, which bounded every
+  bus packet by this endpoint's `max_packet_size`; it implies this one.)
 * `expected`: what a host-side observer computes from the inputs and the ACK line alone: the payloads
   of the packets ACKed with the expected toggle, with the transfer marks.
 * `DetRel`: the state of the boundary detector as a function of the phase (the cycle-level companion of
@@ -54,6 +58,17 @@ middle of its own transaction -/
 def stable (c : Config) (t : Tok) (pid : Nat) (i : In) : Bool :=
   Tok.of i == t && i.pidToggle == pid && !i.tokNew && !(i.clearHalt && t.targets c)
 
+/-- The length bound of a data packet: `n` bytes are acceptable in a transaction whose token is `t`.  Only the
+packets of a transaction addressed to the endpoint (`t.targets c`: the token registers name the endpoint, OUT) are
+bounded by its `max_packet_size` (USB 2.0 §5.8.3: the host never sends more to an endpoint than its descriptor
+says); a packet of any other transaction on the bus — another endpoint, a SETUP / IN / PING transaction — may
+have ANY length (an 8-byte SETUP packet next to a 4-byte OUT endpoint, a 512-byte packet for another endpoint). -/
+def lenOk (c : Config) (t : Tok) (n : Nat) : Bool := !t.targets c || decide (n ≤ c.mps)
+
+theorem lenOk_inv {c : Config} {t : Tok} {n : Nat} (h : lenOk c t n = true) : t.targets c = true → n ≤ c.mps := by
+  simp only [lenOk] at h
+  grind
+
 /-- One cycle of the acceptor; `none` = the input is outside `LegalHost`. -/
 def Phase.step (c : Config) : Phase → In → Option Phase
   | .idle, i =>
@@ -65,14 +80,14 @@ def Phase.step (c : Config) : Phase → In → Option Phase
     else if i.tokNew then (if (Tok.of i).wf && !isByte i then some (.tok (Tok.of i)) else none)
     else if Tok.of i != t then none
     else if isByte i then
-      (if !strobeAny i && decide (1 ≤ c.mps) then some (.rx t i.pidToggle [] none i.rx.payload) else none)
+      (if !strobeAny i && lenOk c t 1 then some (.rx t i.pidToggle [] none i.rx.payload) else none)
     else if strobeAny i then
       (if strobeOne i then some (.finByte t i.pidToggle [] none i.rx.completeIn) else none)   -- zero-length packet
     else some (.tok t)
   | .rx t pid sent now buf, i =>
     if !stable c t pid i || i.rxReady then none
     else if isByte i then
-      (if !strobeAny i && decide (sent.length + now.toList.length + 2 ≤ c.mps)
+      (if !strobeAny i && lenOk c t (sent.length + now.toList.length + 2)
         then some (.rx t pid (sent ++ now.toList) (some buf) i.rx.payload) else none)
     else if i.rx.valid then
       (if !strobeAny i then some (.rx t pid (sent ++ now.toList) none buf) else none)
@@ -209,7 +224,7 @@ theorem step_idle_inv {c : Config} {i : In} {p' : Phase} (h : Phase.step c .idle
 theorem step_tok_inv {c : Config} {t : Tok} {i : In} {p' : Phase} (h : Phase.step c (.tok t) i = some p') :
     i.rxReady = false ∧
     ((i.tokNew = true ∧ (Tok.of i).wf = true ∧ isByte i = false ∧ p' = .tok (Tok.of i))
-     ∨ (i.tokNew = false ∧ Tok.of i = t ∧ isByte i = true ∧ strobeAny i = false ∧ 1 ≤ c.mps ∧
+     ∨ (i.tokNew = false ∧ Tok.of i = t ∧ isByte i = true ∧ strobeAny i = false ∧ lenOk c t 1 = true ∧
           p' = .rx t i.pidToggle [] none i.rx.payload)
      ∨ (i.tokNew = false ∧ Tok.of i = t ∧ isByte i = false ∧ strobeOne i = true ∧
           p' = .finByte t i.pidToggle [] none i.rx.completeIn)
@@ -221,7 +236,7 @@ theorem step_tok_inv {c : Config} {t : Tok} {i : In} {p' : Phase} (h : Phase.ste
 theorem step_rx_inv {c : Config} {t : Tok} {pid : Nat} {sent : List Nat} {now : Option Nat} {buf : Nat} {i : In}
     {p' : Phase} (h : Phase.step c (.rx t pid sent now buf) i = some p') :
     stable c t pid i = true ∧ i.rxReady = false ∧
-    ((isByte i = true ∧ strobeAny i = false ∧ sent.length + now.toList.length + 2 ≤ c.mps ∧
+    ((isByte i = true ∧ strobeAny i = false ∧ lenOk c t (sent.length + now.toList.length + 2) = true ∧
         p' = .rx t pid (sent ++ now.toList) (some buf) i.rx.payload)
      ∨ (isByte i = false ∧ i.rx.valid = true ∧ strobeAny i = false ∧ p' = .rx t pid (sent ++ now.toList) none buf)
      ∨ (isByte i = false ∧ i.rx.valid = false ∧ strobeOne i = true ∧
